@@ -123,6 +123,37 @@ Definition iat_slots : list (string * bool) :=
   ; ("Addenda15", false); ("Addenda16", false); ("Addenda17", true); ("Addenda18", true)
   ; ("Addenda98", false); ("Addenda99", false) ].
 
+(* ---- source facts the hand-written control flow below relies on, pinned as
+   text (go/printer form): which Reader method each branch calls, which record
+   types the methods construct / parse into, and their guard conditions.  They
+   are not consumed by the functions; the obligation [reader_source_pinned]
+   fails when reader.go changes here, which asks for a review of step1..step9. *)
+Definition bh_branches : list string := ["parseIATBatchHeader"; "parseBatchHeader"].
+Definition record_ctors : list (string * list string) :=
+  [ ("parseFileHeader", ["r.File.Header.Parse"])
+  ; ("parseBatchHeader", ["BatchHeader"])
+  ; ("parseIATBatchHeader", ["IATBatchHeader"])
+  ; ("parseEntryDetail", ["EntryDetail"; "ADVEntryDetail"])
+  ; ("parseIATEntryDetail", ["IATEntryDetail"])
+  ; ("parseADVAddenda", ["Addenda99"])
+  ; ("parseBatchControl", ["r.currentBatch.GetADVControl().Parse"; "r.currentBatch.GetControl().Parse"; "r.IATCurrentBatch.GetControl().Parse"])
+  ; ("parseFileControl", ["r.File.Control.Parse"; "r.File.ADVControl.Parse"]) ].
+Definition reader_guards : list (string * list string) :=
+  [ ("parseLine", ["r.currentBatch != nil"; "len(r.currentBatch.GetEntries()) == 0"; "!r.skipBatchAccumulation"
+                  ; "r.currentBatch != nil"; "!r.skipBatchAccumulation"; "!r.skipBatchAccumulation"; "r.line[:2] == ""99"""])
+  ; ("parseBH", ["r.line[50:53] == IAT || strings.TrimSpace(r.line[04:20]) == IATCOR"])
+  ; ("parseED", ["r.IATCurrentBatch.Header != nil"])
+  ; ("parseEDAddenda", ["r.currentBatch != nil && r.currentBatch.GetHeader().CompanyName != IATCOR"])
+  ; ("parseEntryDetail", ["r.currentBatch == nil"; "r.currentBatch.GetHeader().StandardEntryClassCode != ADV"])
+  ; ("parseIATEntryDetail", ["r.IATCurrentBatch.Header == nil"])
+  ; ("parseAddenda", ["r.currentBatch == nil"; "r.currentBatch.GetHeader().StandardEntryClassCode != ADV"
+                     ; "len(r.currentBatch.GetEntries()) == 0"; "entry.AddendaRecordIndicator == 1"])
+  ; ("parseADVAddenda", ["r.currentBatch == nil"; "len(r.currentBatch.GetADVEntries()) == 0"; "entry.AddendaRecordIndicator != 1"])
+  ; ("parseIATAddenda", ["r.IATCurrentBatch.GetEntries() == nil"; "entry.AddendaRecordIndicator == 1"])
+  ; ("parseBatchControl", ["r.currentBatch == nil && r.IATCurrentBatch.GetEntries() == nil"; "r.currentBatch != nil"
+                          ; "r.currentBatch.GetHeader().StandardEntryClassCode == ADV"])
+  ; ("parseFileControl", ["!r.File.IsADV()"; "(FileControl{}) != r.File.Control"; "(ADVFileControl{}) != r.File.ADVControl"]) ].
+
 Definition ADVb : bytes := bstr "ADV".
 Definition IATCORb : bytes := bstr "IATCOR".
 
